@@ -1,11 +1,16 @@
 package sim
 
 import (
+	"bytes"
 	"fmt"
+	"os"
+	"os/exec"
+	"path/filepath"
 	"sort"
 	"strconv"
 	"strings"
 	"testing"
+	"time"
 )
 
 // C01: a transaction reaches the files all-or-nothing, according to how it ended.
@@ -706,6 +711,26 @@ func (c01) Eval(t *testing.T, c *Case, dec func(int) *Decider) *Outcome {
 			}
 		}
 	}
+	// real-process tier: the same procedure through the real binary (cli/app.go: option
+	// parsing, signal set-up, deferred rollback and release), which the simulated shell
+	// replica stands in for. Without faults the run is a function of program and files:
+	// exit code and directory must equal the simulated ones.
+	if bin := os.Getenv("VERIF_CSVQ_BIN"); bin != "" && len(o.Violations) == 0 && len(sc.Cancels) == 0 && !sc.Knobs.RelRepo && meta.Ending != "cancel" && Sub(c.Seed, "c01-real").Bool(0.06) {
+		dir, code, stderr, err := realPlainRun(bin, sc)
+		o.RealProc++
+		switch {
+		case err != nil:
+			o.Infra = append(o.Infra, "real-process tier: "+err.Error())
+		case code != p.ExitCode:
+			o.viol(prop, "fidelity", "real-run-differs-from-simulation:exit-code", fmt.Sprintf("the real csvq binary ends the procedure with exit code %d, the simulated process with %d (%s); stderr: %s", code, p.ExitCode, firstLine(p.ErrText), firstLine(stderr)))
+		default:
+			if diff := dirDiff(res.Final, dir); diff != "" {
+				o.viol(prop, "all-or-nothing", "real-run-differs-from-simulation:"+ending, fmt.Sprintf("after the same procedure (ending: %s, exit %d) the directory of the real csvq binary differs from the simulated one: %s", ending, code, diff))
+			} else {
+				o.Stats.probe("real-run-equals-simulation")
+			}
+		}
+	}
 	o.Sample = map[string]interface{}{"seed": c.Seed, "program": sc.Procs[0].Program, "ending": ending, "cancels": sc.Cancels, "exit": p.ExitCode, "err": firstLine(p.ErrText), "commits_observed": len(obs.snaps), "final_files": res.Final.Names()}
 	return o
 }
@@ -762,4 +787,43 @@ func c01HoistSetStatements(lines []string) ([]string, bool) {
 	}
 	flush()
 	return out, moved
+}
+
+// realPlainRun runs the program of the scenario's only process in the real csvq
+// binary, in a fresh copy of the scenario's files, without any fault.
+func realPlainRun(bin string, sc *Scenario) (DirState, int, string, error) {
+	setupBase()
+	dir, err := os.MkdirTemp(BaseDir, "real01-")
+	if err != nil {
+		return nil, 0, "", err
+	}
+	defer os.RemoveAll(dir)
+	if err := writeFiles(dir, sc.Files); err != nil {
+		return nil, 0, "", err
+	}
+	ps := sc.Procs[0]
+	args := []string{"--repository", dir, "--quiet", "--cpu", fmt.Sprint(max(ps.CPU, 1)), "--format", "CSV"}
+	args = append(append(args, cliFlagArgs(ps.Flags)...), ps.Program)
+	cmd := exec.Command(bin, args...)
+	cmd.Dir = filepath.Join(BaseDir, "cwd")
+	var stderr bytes.Buffer
+	cmd.Stderr = &stderr
+	done := make(chan error, 1)
+	if err := cmd.Start(); err != nil {
+		return nil, 0, "", err
+	}
+	go func() { done <- cmd.Wait() }()
+	select {
+	case err := <-done:
+		code := 0
+		if ee, ok := err.(*exec.ExitError); ok {
+			code = ee.ExitCode()
+		} else if err != nil {
+			return nil, 0, stderr.String(), err
+		}
+		return SnapshotDir(dir), code, stderr.String(), nil
+	case <-time.After(30 * time.Second):
+		_ = cmd.Process.Kill()
+		return nil, 0, stderr.String(), fmt.Errorf("real process did not terminate within 30 s")
+	}
 }
